@@ -640,6 +640,81 @@ fn concurrent_v<V: Fv>(ctx: &Ctx, threads: usize, per_thread: usize, rep: &mut R
     rep.sample(json!({"variant": V::NAME, "threads": threads, "signatures": sigs.len(), "overlapping_call_pairs": overlaps, "side_keygens": side_keys}));
 }
 
+/// MANY signers (far more than cores, more than any plausible pool of scratch buffers) sharing one
+/// key, each signing MULTI-MEGABYTE messages: hashing a message outlasts a scheduler slice, so
+/// hundreds of threads are inside the hashing step of sign at the same moment. Process-wide
+/// pools, arenas or staging buffers with a slow path for "all slots busy" are exercised only here.
+/// The messages are overlapping windows of one shared buffer (no copies in the harness).
+fn many_signers_long_messages<V: Fv>(ctx: &Ctx, threads: usize, msg_len: usize, per_thread: usize, rep: &mut Report) {
+    let (keys, _bad) = pool::keys::<V>(ctx.seed, "c01-many", 1);
+    if keys.is_empty() {
+        rep.inconclusive("no key".into());
+        return;
+    }
+    let key = Arc::new(keys.into_iter().next().unwrap());
+    let h = Arc::new(spec::pk_fields(&V::pk_to_bytes(&key.pk)[1..]));
+    let mut rng = rng_for(ctx.seed, "c01-many-buffer");
+    let mut base = vec![0u8; msg_len + threads * per_thread + 64];
+    rand::RngCore::fill_bytes(&mut rng, &mut base);
+    let base = Arc::new(base);
+    let barrier = Arc::new(Barrier::new(threads));
+    let inflight = Arc::new(AtomicU64::new(0));
+    let max_inflight = Arc::new(AtomicU64::new(0));
+    let out: Arc<Mutex<Vec<(usize, usize, bool, Option<bool>, bool)>>> = Arc::new(Mutex::new(vec![]));
+    let mut hs = vec![];
+    for t in 0..threads {
+        let (key, h, base, barrier, inflight, max_inflight, out) = (key.clone(), h.clone(), base.clone(), barrier.clone(), inflight.clone(), max_inflight.clone(), out.clone());
+        let b = std::thread::Builder::new().stack_size(1 << 20);
+        match b.spawn(move || {
+            crate::util::install_panic_hook();
+            barrier.wait();
+            for i in 0..per_thread {
+                let off = t * per_thread + i;
+                let msg = &base[off..off + msg_len];
+                let now = inflight.fetch_add(1, Ordering::SeqCst) + 1;
+                max_inflight.fetch_max(now, Ordering::SeqCst);
+                let s = monitored(|| V::sign(msg, &key.sk));
+                inflight.fetch_sub(1, Ordering::SeqCst);
+                match s {
+                    Ok(sig) => {
+                        let ok = monitored(|| V::verify(msg, &sig, &key.pk)).unwrap_or(false);
+                        // the independent verifier on a sample (its SHAKE is slower)
+                        let refv = if t % 8 == 0 || !ok {
+                            let sb = V::sig_to_bytes(&sig);
+                            Some(spec::verify_traced(msg, &sb[1..41], &sb[41..], &h).0)
+                        } else {
+                            None
+                        };
+                        out.lock().unwrap().push((t, off, ok, refv, false));
+                    }
+                    Err(_) => out.lock().unwrap().push((t, off, false, None, true)),
+                }
+            }
+        }) {
+            Ok(hd) => hs.push(hd),
+            Err(_) => {
+                rep.inconclusive(format!("could not start {} threads", threads));
+                return;
+            }
+        }
+    }
+    for hd in hs {
+        let _ = hd.join();
+    }
+    for (t, off, ok, refv, panicked) in out.lock().unwrap().iter() {
+        rep.evaluations += 1;
+        let replay = json!({"variant": V::NAME, "key_seed": hex(&key.seed), "threads": threads, "message": format!("window [{}, {}) of the shared buffer (ChaCha stream c01-many-buffer)", off, off + msg_len), "note": "re-run the leg with the recorded seed"});
+        if *panicked {
+            rep.violation("panic:sign-concurrent", format!("{}: sign panicked in thread {} of {} signing a {}-byte message", V::NAME, t, threads, msg_len), replay);
+        } else if !ok || *refv == Some(false) {
+            rep.violation("sign:concurrent-signature-rejected", format!("{}: signature on a {}-byte message made by thread {} of {} sharing one key rejected (crate verify {}, reference {:?})", V::NAME, msg_len, t, threads, ok, refv), replay);
+        }
+        rep.count("signatures_on_long_messages_by_many_signers", 1);
+    }
+    rep.stat_max("most_sign_calls_in_flight_at_once", max_inflight.load(Ordering::SeqCst) as f64);
+    rep.nontrivial(format!("many|{}|{}|{}", V::NAME, threads, msg_len).as_bytes());
+}
+
 pub fn concurrent(ctx: &Ctx, rep: &mut Report) {
     if !crate::pool::keygen_responds::<F512>() {
         rep.inconclusive("key generation did not return within 180 s (canary); reported as inconclusive, never as a violation".into());
@@ -652,6 +727,9 @@ pub fn concurrent(ctx: &Ctx, rep: &mut Report) {
     for t in [2usize, 16] {
         concurrent_v::<F1024>(ctx, t, per, rep);
     }
+    many_signers_long_messages::<F512>(ctx, ctx.sz(200, 320), ctx.sz(12 << 20, 16 << 20), 3, rep);
+    many_signers_long_messages::<F1024>(ctx, ctx.sz(96, 200), ctx.sz(8 << 20, 16 << 20), 2, rep);
+    rep.require("signatures_on_long_messages_by_many_signers", 30);
     rep.require("overlapping_call_pairs", 100);
     rep.require("concurrent_signatures", 500);
 }
